@@ -2,8 +2,8 @@ SPECIFICATION Spec
 VIEW view
 CONSTANTS
   OffsMod = 65536
-  Atoms <- AtomsReq
-  Heads <- HeadsReq
+  Atoms <- AtomsSel
+  Sel = "req"
   MaxLen = 40
   Cfgs <- CfgsFL
   Junk = 34
